@@ -389,10 +389,14 @@ def main():
             # changed library (a cache, a shared object): each candidate is replayed in a clean
             # room; the first that fails there is reported, refuted ones are demoted
             refuted = confirmed = 0
+            for f in unknown:
+                f.pop("reproduces_alone", None)     # a corpus record may carry the flag of its own run
             try:
                 with C.CleanRoom("props." + pid.lower()) as room:
-                    # inputs that carry their own history are tried first
-                    for f in sorted(unknown, key=lambda f: 0 if f.get("carries_history") else 1):
+                    # order of trial: the five shortest plain inputs, then the inputs that carry
+                    # their own history, then the rest
+                    plain = [f for f in unknown if not f.get("carries_history")]
+                    for f in plain[:5] + [f for f in unknown if f.get("carries_history")] + plain[5:]:
                         if f.get("kind", "violation") != "violation" or refuted >= 40:
                             continue
                         if room.replay(f).get("fails"):
